@@ -2,6 +2,7 @@ import Driver.Common
 import Lean.Elab.Deriving.FromToJson
 import Canine.Storage.Model
 import Canine.Storage.Merkle
+import Canine.Genesis.Modules
 import Canine.Crypto.Sha256
 import Canine.Crypto.Sha3
 open Lean (Json FromJson ToJson fromJson? toJson)
@@ -18,6 +19,10 @@ deriving instance FromJson, ToJson for Params
 deriving instance FromJson, ToJson for State
 deriving instance FromJson, ToJson for Op
 end Storage
+namespace Genesis.Storage
+deriving instance FromJson, ToJson for CollateralRec
+deriving instance FromJson, ToJson for GenesisState
+end Genesis.Storage
 end Canine
 
 namespace Driver.Storage
@@ -105,7 +110,26 @@ def check (j : Json) : Except String (Option String) := do
     | .error e => return some s!"field=panic model predicts a BeginBlock panic ({e}) impl=ok"
     | .ok s' => return diff s' post
   -- a restart of the network from its own exported genesis changes nothing the module holds
-  if let .str "restart" := opj then return diff pre post
+  if let .str "restart" := opj then
+    -- the concrete genesis model (Canine/Genesis/Modules.lean) against the real export: every list of the
+    -- exported genesis, in order, must be what `exportGenesis` computes from the state before the restart, and
+    -- importing the real genesis into blank stores must give the state after it
+    let gd : Option String ←
+      match j.getObjVal? "genesis" with
+      | .ok gj =>
+        if gj.isNull then pure none else do
+        let g : Genesis.Storage.GenesisState ← fromJson? gj
+        let m := Genesis.Storage.exportGenesis pre
+        let imported := Genesis.Storage.initGenesis (Genesis.Storage.blank pre) g
+        pure (allSome [cmpField "genesis.params" m.params g.params, cmpField "genesis.fileList" m.fileList g.fileList,
+          cmpField "genesis.providersList" m.providersList g.providersList, cmpField "genesis.paymentInfoList" m.paymentInfoList g.paymentInfoList,
+          cmpField "genesis.collateralList" m.collateralList g.collateralList, cmpField "genesis.activeProvidersList" m.activeProvidersList g.activeProvidersList,
+          cmpField "genesis.reportForms" m.reportForms g.reportForms, cmpField "genesis.attestForms" m.attestForms g.attestForms,
+          cmpField "genesis.paymentGauges" m.paymentGauges g.paymentGauges, cmpField "genesis.proofList" m.proofList g.proofList,
+          cmpField "genesis.validate" (Genesis.Storage.validate g) true,
+          (diff imported post).map (fun d => "genesis.import " ++ d), cmpField "genesis.import.params" imported.params post.params])
+      | .error _ => pure none
+    return allSome [diff pre post, gd]
   if let .ok pj := opj.getObjVal? "setParams" then
     -- a governance parameter change: only the parameters move (`Event.setParams` of C15)
     let p : Params ← fromJson? pj
